@@ -520,3 +520,84 @@ def funcs_used(steps):
 
     walk_steps(steps)
     return sorted(f), sorted(a)
+
+
+# ---------------------------------------------------------------- targeted families
+def refs_family(g, jnum=False, opaque_kinds=None):
+    """a document {"list": members, "ref": v, "ref2": w, ...} whose members carry a key `k` with values drawn
+    from a small pool that also feeds the root references, and comparison filters between `@.k`, `$.ref`
+    and literals in both orders — so that path-vs-path and path-vs-literal comparisons really match some
+    members, miss others and meet other types.  Returns (doc, [filter texts])."""
+    r = g.r
+    if opaque_kinds:
+        pool = [('x', k) for k in r.sample(opaque_kinds, min(3, len(opaque_kinds)))] + [('n', 1.0), ('s', b'x')]
+    else:
+        nums = r.sample([0.0, 1.0, 2.0, 3.0, 5.0, 1.5, -1.0, 10.0], 3)
+        pool = [(('j', fmt_num_literal(x).decode()) if jnum else ('n', x)) for x in nums] + \
+               [('s', r.choice([b'x', b'1', b'ab'])), ('b', True), ('z',)]
+    w = [5, 4, 3, 1, 1, 1][:len(pool)]
+    members = []
+    for i in range(r.randint(2, 6)):
+        m = [(b'u', ('n', float(100 + i)))]
+        if r.random() < 0.85:
+            m.append((b'k', r.choices(pool, w)[0]))
+        if r.random() < 0.5:
+            m.append((b'h', r.choices(pool, w)[0]))
+        r.shuffle(m)
+        members.append(('o', m))
+    body = ('a', members) if r.random() < 0.7 else ('o', list(zip(r.sample(KEY_POOL, len(members)), members)))
+    top = [(b'list', body), (b'ref', r.choices(pool, w)[0])]
+    if r.random() < 0.7:
+        top.append((b'ref2', r.choices(pool, w)[0]))
+    if r.random() < 0.3:
+        top.append((b'arr', ('a', [r.choices(pool, w)[0] for _ in range(3)])))
+    r.shuffle(top)
+    doc = ('o', top)
+    sp = Spelling()
+    lits = [p for p in pool if p[0] in ('n', 's', 'b', 'z')] + [('n', 2.0)]
+    if jnum:
+        lits += [('n', float(p[1])) for p in pool if p[0] == 'j']
+
+    def operand():
+        k = r.random()
+        if k < 0.4:
+            return r.choice([b'@.k', b'@.k', b'@.h', b"@['k']", b'@.zz'])
+        if k < 0.75:
+            return r.choice([b'$.ref', b'$.ref', b'$.ref2', b'$.arr[0]', b'$.list[0].k', b'$.nope'])
+        return render_literal(r.choice(lits), sp)
+    exprs = []
+    for _ in range(r.randint(2, 5)):
+        a, b = operand(), operand()
+        if a[:1] == b'@' and b[:1] == b'@':
+            b = render_literal(r.choice(lits), sp)
+        op = r.choice([b'==', b'==', b'!=', b'<', b'<=', b'>', b'>='])
+        e = a + b' ' + op + b' ' + b
+        k = r.random()
+        if k < 0.15:
+            e = e + r.choice([b' && ', b' || ']) + r.choice([b'@.h', b'!@.h', b'@.k == $.ref2', b'$.ref2'])
+        elif k < 0.25:
+            e = r.choice([b'@.h', b'!@.h', b'$.nope']) + r.choice([b' && ', b' || ']) + e
+        exprs.append(e)
+    return doc, exprs
+
+
+def nested_arrays_family(g):
+    """an array (or object) of arrays of different lengths and slice/index subscripts applied through a
+    multi-valued prefix: per-node state left behind by one array would show on the next"""
+    r = g.r
+    arrays = []
+    base = 0
+    for _ in range(r.randint(2, 5)):
+        n = r.choice([0, 1, 2, 2, 3, 5, 7, 8])
+        arrays.append(('a', [('n', float(base + i)) for i in range(n)]))
+        base += 10
+    doc = ('a', arrays) if r.random() < 0.7 else ('o', list(zip(r.sample(KEY_POOL, len(arrays)), arrays)))
+
+    def b():
+        return None if r.random() < 0.4 else r.randint(-8, 8)
+    step = r.choice([2, 3, 4, -2, -3, 1, -1, 7, 2 ** 63 - 1, -2 ** 63])
+    sub = ('slice', b(), b(), step) if r.random() < 0.8 else ('idx', r.randint(-8, 8))
+    prefix = r.choice([[('wild', 'br')], [('wild', 'dot')], [('rec', ('union', [sub]))], [('union', [('slice', None, None, 'absent')])]])
+    if prefix[0][0] == 'rec':
+        return doc, prefix
+    return doc, prefix + [('union', [sub] + ([('idx', r.randint(-3, 3))] if r.random() < 0.2 else []))]
